@@ -212,6 +212,17 @@ def well_conditioned(expr, point, val, binding=None):
         v2 = as_real(sympy_ref_value(expr, p2, binding=binding))
         if v2 is None or abs(v2 - val) > 1e-6 * (1 + abs(val)):
             return False
+    # conditioning with respect to the numeric constants of the expression itself (e.g. tan(1e18): any double evaluation
+    # of the argument differs in its last bits)
+    try:
+        nums = [a for a in expr.atoms(sympy.Float)] + [a for a in expr.atoms(sympy.Integer) if abs(a) > 10**6]
+        if nums:
+            e2 = expr.xreplace({a: sympy.Float(a, 30) * (1 + sympy.Float("1e-12", 30)) for a in nums})
+            v3 = as_real(sympy_ref_value(e2, point, binding=binding))
+            if v3 is None or abs(v3 - val) > 1e-6 * (1 + abs(val)):
+                return False
+    except Exception:
+        return False
     return True
 
 
